@@ -74,6 +74,12 @@ Reply(kind, bytes, last) == /\ replies' = Append(replies, <<kind, bytes, last>>)
                             /\ hpc' = "idle" /\ cur' = <<>>
                             /\ IF last \/ kind = "err" THEN done' = TRUE /\ inTable' = FALSE /\ wantMore' = wantMore - 1
                                ELSE UNCHANGED <<done, inTable, wantMore>>
+\* the producer thread dies (a panic in the body): the channel closes without End or Fail.  What was already
+\* queued can still be received; after that a receive reports the closed channel, which Session::recv turns into Fail.
+PDie == /\ pstate \in {"run", "flushed"} /\ pstate' = "dead" /\ blockedMsg' = <<>> /\ buf' = <<>>
+        /\ UNCHANGED <<written, q, look, cur, hpc, done, inTable, replies, wantMore>>
+HRecvClosed == /\ hpc \in {"need1", "need2"} /\ q = <<>> /\ pstate = "dead"
+               /\ Reply("err", <<>>, FALSE) /\ UNCHANGED <<look, written, buf, q, blockedMsg, pstate>>
 HRecv1 == /\ hpc = "need1" /\ q # <<>>
           /\ LET m == Head(q) IN
              /\ q' = Tail(q)
@@ -92,8 +98,9 @@ HRecv2 == /\ hpc = "need2" /\ q # <<>>
 CCancel == /\ hpc = "idle" /\ inTable /\ ~cancelled /\ wantMore > 0
            /\ inTable' = FALSE /\ cancelled' = TRUE
            /\ UNCHANGED <<written, buf, q, blockedMsg, pstate, look, cur, hpc, done, replies, wantMore>>
-Core == (\E k \in WriteSizes : PWrite(k)) \/ PUnblock \/ PFinish \/ PTerm \/ CNext \/ HRecv1 \/ HRecv2
-Next == ((Core /\ UNCHANGED cancelled) \/ CCancel) /\ UNCHANGED params
+Core == (\E k \in WriteSizes : PWrite(k)) \/ PUnblock \/ PFinish \/ PTerm \/ CNext \/ HRecv1 \/ HRecv2 \/ HRecvClosed
+Die == PDie /\ UNCHANGED cancelled
+Next == ((Core /\ UNCHANGED cancelled) \/ CCancel \/ Die) /\ UNCHANGED params
 Spec == Init /\ [][Next]_vars /\ WF_vars(Core /\ UNCHANGED cancelled /\ UNCHANGED params)
 SpecNoCancel == Init /\ [][(Core /\ UNCHANGED cancelled) /\ UNCHANGED params]_vars /\ WF_vars(Core /\ UNCHANGED cancelled /\ UNCHANGED params)
 \* --- property layer
@@ -103,16 +110,16 @@ Delivered == Concat(replies)
 Lasts == {i \in 1..Len(replies) : replies[i][3]}
 PrefixOk == Delivered = Seq1(1, Len(Delivered))          \* in order, no dup, no gap
 AtMostOneLast == Cardinality(Lasts) <= 1
-LastIsComplete == \A i \in Lasts : Concat(SubSeq(replies, 1, i)) = Seq1(1, N) /\ NoFail
+LastIsComplete == \A i \in Lasts : Concat(SubSeq(replies, 1, i)) = Seq1(1, N) /\ NoFail /\ pstate # "dead"
 \* after a release every further pull is an error (never a chunk, never an end marker)
 AfterCancelError == [][(cancelled /\ Len(replies') > Len(replies)) => replies'[Len(replies')][1] = "err"]_vars
 NothingAfterEnd == \A i \in 1..Len(replies) : (\E j \in 1..(i-1) : replies[j][3] \/ replies[j][1] = "err") => replies[i][1] = "err"
-FailNeverLast == ~NoFail => Lasts = {}
-EmptyIsSingle == (N = 0 /\ NoFail /\ replies # <<>> /\ ~cancelled) => replies[1] = <<"chunk", <<>>, TRUE>>
+FailNeverLast == (~NoFail \/ pstate = "dead") => Lasts = {}
+EmptyIsSingle == (N = 0 /\ NoFail /\ replies # <<>> /\ ~cancelled /\ pstate # "dead") => replies[1] = <<"chunk", <<>>, TRUE>>
 Finishes == <>(wantMore = 0 \/ (cancelled /\ hpc = "idle"))
 \* as-built layer: the reply sequence is a function of the constants (confluence)
 ExpectedChunks == LET full == N \div Chunk  rem == N % Chunk IN full + (IF rem > 0 THEN 1 ELSE 0)
-AsBuilt == (NoFail /\ wantMore = 0 /\ ~cancelled) =>
+AsBuilt == (NoFail /\ wantMore = 0 /\ ~cancelled /\ pstate # "dead") =>
               /\ Len(replies) = (IF N = 0 THEN 1 ELSE ExpectedChunks) + 1
               /\ \A i \in 1..ExpectedChunks : Len(replies[i][2]) = (IF i * Chunk <= N THEN Chunk ELSE N % Chunk)
 =============================================================================
